@@ -114,6 +114,9 @@ type Plan struct {
 	MutateResp func(kind string, resp interface{}) interface{}
 	// Answer: a hostile responder that answers by itself (the real handler of the target is not run)
 	Answer func(kind string, args interface{}) (interface{}, bool)
+	// AnswerAs restricts Answer to requests addressed to this node index (-1 / unset with AnswerAsSet=false: all)
+	AnswerAs    int
+	AnswerAsSet bool
 	// Hook is called at the lock-release points: phase "pre" (before the
 	// request reaches the target) and "post" (after the target answered).
 	Hook func(from, to int, kind, phase string)
@@ -225,8 +228,14 @@ func (c *Cluster) startNode(i int, currentPeers []*peers.Peer, bootstrap bool, f
 		sn.Dir = old.Dir
 		sn.Submits = old.Submits
 	}
-	for _, p := range currentPeers {
-		sn.Configured = append(sn.Configured, p.PubKeyString())
+	if old := c.Nodes[i]; old != nil && len(old.Configured) > 0 {
+		// a restarted process: what it was configured with originally (the list it is handed now is whatever its
+		// previous life held at the end, which is part of what C14 checks)
+		sn.Configured = old.Configured
+	} else {
+		for _, p := range currentPeers {
+			sn.Configured = append(sn.Configured, p.PubKeyString())
+		}
 	}
 	sn.App.StepFn = func() int { return c.Step }
 	sn.App.FailAfterApply = c.Cfg.CommitFault[i]
@@ -397,7 +406,7 @@ func (c *Cluster) deliver(from int, target string, kind string, args interface{}
 	if plan != nil && kind == "ff" && plan.FFFrom > 0 && toIdx != plan.FFFrom-1 {
 		return nil, fmt.Errorf("harness transport: ff request to %s dropped (serving peer fixed)", target)
 	}
-	if plan != nil && plan.Answer != nil {
+	if plan != nil && plan.Answer != nil && (!plan.AnswerAsSet || plan.AnswerAs == toIdx) {
 		if r, ok := plan.Answer(kind, args); ok {
 			return r, nil
 		}
